@@ -193,6 +193,23 @@ fn check_tape(tape: &[u8], gates: &Gates, stats: &mut Stats, counting: bool) -> 
             }
         }
     }
+    // a text whose ONLY non-ASCII characters are its last one or two, with no line break behind
+    // them: stored as Windows-1252 these bytes are the beginning of a UTF-8 sequence that never
+    // ends (a decoder that is not told "this was all" keeps waiting instead of giving up)
+    if choice.ratio(1, 10) {
+        let tail = *choice.pick(&["\u{e9}", "\u{f0}\u{178}", "\u{e2}\u{201a}", "\u{c3}", "\u{f4}", "\u{e0}\u{a0}", "(* Zo\u{eb}"]);
+        let mut plain = base.clone();
+        if crlf {
+            plain = plain.replace('\n', "\r\n");
+        }
+        while plain.ends_with('\n') || plain.ends_with('\r') {
+            plain.pop();
+        }
+        text = format!("{}{}{}", plain, if choice.flag() { "\n" } else { " " }, tail);
+        if counting {
+            stats.class("text.ascii-with-unfinished-utf8-sequence-at-the-end");
+        }
+    }
     // byte sequences that look like a byte-order mark, as the FIRST non-ASCII text of the file
     // but not at its start (U+FEFF itself; the Windows-1252 characters whose bytes are FE FF,
     // FF FE or EF BB BF): a mark counts only at offset 0
